@@ -29,7 +29,7 @@ ANCHORS = ["goose/kernel_sequence.py:KernelSequence.transition", "goose/interfac
            "goose/hmc.py:HMCKernel._standard_transition", "goose/iwls.py:IWLSKernel._standard_transition"]
 ASSUMPTIONS = ["float32 recomputation tolerance atol 2e-5 + rtol 2e-5 (x (1+|value|))"]
 WORKERS = 16
-TIMEOUT = {"quick": 1500, "thorough": 3600}
+TIMEOUT = {"quick": 1500, "thorough": 10800}
 
 _REC = None
 
